@@ -85,6 +85,19 @@ Definition drop_entry (l : list sentry) (p : nat) : list sentry := firstn (p - 1
 
 Definition grow_img (K old new : nat) (l : list N) : list N := l ++ repeat 0%N ((new - old) * K).
 
+(** the cleaner's choice, on the snapshot table: [victim] lies strictly between the base snapshot and the
+    checkpoint [c], is not a retained user-created snapshot and neither is its parent (this is membership in
+    the model's [candidates], see Refine.picked_spec) *)
+Definition s_retained_at (l : list sentry) (p : nat) : bool :=
+  match nth_error l (p - 1) with Some e => retained e | None => false end.
+
+Definition s_picked (s : spec) (c victim : N) : bool :=
+  let n := length (snaps s) in
+  let p := spos (snaps s) victim 1 in
+  let pc := spos (snaps s) c 1 in
+  (3 <=? n) && (2 <=? p) && (p <? pc)
+  && negb (s_retained_at (snaps s) p) && negb (s_retained_at (snaps s) (p - 1)).
+
 (** protected members: head, latest snapshot, base snapshot.  [n] = number of snapshots. *)
 Inductive target := THead | TAbsent | TLatest | TBase | TMiddle (p : nat).
 Definition classify (s : spec) (name : N) : target :=
@@ -99,9 +112,12 @@ Definition classify (s : spec) (name : N) : target :=
 
 (** one step of the specification.  [None]: the operation is outside what the properties speak about
     (raw fold / raw remove of an unprotected member, a deletion that merges into a retained user-created
-    snapshot, a snapshot name that is already in use).  [hint] is the observed live image, used only
-    when the volume is reverted to a snapshot whose content is not promised. *)
-Definition spec_step (K : nat) (s : spec) (o : op) (hint : list N) : option (spec * res * list N) :=
+    snapshot, a snapshot name that is already in use).  [hint] = (observed result, observed live image):
+    the image is used only when the volume is reverted to a snapshot whose content is not promised, the
+    result only for a read under an injected fault, which may fail (nothing changes) or succeed (then the
+    data are the specification's) -- which of the two is decided by where the blocks live, which the flat
+    specification does not know. *)
+Definition spec_step (K : nat) (s : spec) (o : op) (hint : res * list N) : option (spec * res * list N) :=
   match o with
   | Write off data =>
       if size s * K <? off + length data then Some (s, RErr, [])
@@ -144,7 +160,7 @@ Definition spec_step (K : nat) (s : spec) (o : op) (hint : list N) : option (spe
           let p := spos (snaps s) name 1 in
           match nth_error (snaps s) (p - 1) with
           | Some e =>
-              Some (mkspec (if retained e then s_img e else hint) (firstn p (snaps s)) (size s), ROk, [])
+              Some (mkspec (if retained e then s_img e else snd hint) (firstn p (snaps s)) (size s), ROk, [])
           | None => None
           end
       end
@@ -157,6 +173,20 @@ Definition spec_step (K : nat) (s : spec) (o : op) (hint : list N) : option (spe
                         (map (fun e => mksentry (s_name e) (s_user e) (s_removed e)
                                                 (grow_img K (size s) nb (s_img e))) (snaps s))
                         nb, ROk, [])
+  | ReadFault off len _ =>
+      if size s * K <? off + len then Some (s, RErr, [])
+      else match fst hint with
+           | RErr => Some (s, RErr, [])                               (* a failed read changes nothing *)
+           | ROk => Some (s, ROk, firstn len (skipn off (live s)))    (* success: every unit is the written value *)
+           end
+  | Clean None _ _ => Some (s, ROk, [])
+  | Clean (Some c) victim fail =>
+      if N.eqb c 0 then None                                          (* a checkpoint is a snapshot *)
+      else if s_picked s c victim then
+        let p := spos (snaps s) victim 1 in
+        if fail then Some (mkspec (live s) (mark_removed (snaps s) p) (size s), RErr, [])
+        else Some (mkspec (live s) (drop_entry (snaps s) p) (size s), ROk, [])
+      else Some (s, ROk, [])
   end.
 
 (** ** comparisons *)
@@ -192,7 +222,7 @@ Fixpoint snaps_ok (es : list sentry) (imgs revs : list (list N)) : bool :=
       end
   end.
 
-Definition is_read (o : op) : bool := match o with Read _ _ => true | _ => false end.
+Definition is_read (o : op) : bool := match o with Read _ _ | ReadFault _ _ _ => true | _ => false end.
 
 (** the part of the specification C01 promises: results of reads and writes, read data, the live image *)
 Definition c01_step (s1 : spec) (r : res) (x : list N) (o : op) (cur : obs) : bool :=
@@ -209,7 +239,7 @@ Fixpoint spec_oracle (K : nat) (k : spec -> res -> list N -> op -> obs -> bool)
   match ops, os with
   | [], [] => true
   | o :: ops', cur :: os' =>
-      match spec_step K s o (o_live cur) with
+      match spec_step K s o (o_res cur, o_live cur) with
       | None => true                       (* outside the properties' domain: nothing more is claimed *)
       | Some (s1, r, x) => k s1 r x o cur && spec_oracle K k s1 ops' os'
       end
@@ -309,6 +339,17 @@ Definition c11_step (prev : obs) (o : op) (cur : obs) : bool :=
       if protected_name prev name then res_eqb (o_res cur) RErr && same_obs prev cur else true
   | Candidates cp =>
       forallb (cand_ok prev cp) (o_data cur) && same_obs prev cur
+  | Clean cp victim fail =>
+      (* one pass of the background cleaner; [o_data cur] is the candidate list it chose [victim] from.
+         Whatever failed, the live volume reads the same and every retained user-created snapshot is still
+         there with the image it had; the chain loses at most the victim, and nothing when the merge failed *)
+      forallb (cand_ok prev cp) (o_data cur)
+      && listN_eqb (o_live cur) (o_live prev)
+      && users_kept prev victim (o_chain cur) (o_attr cur) (o_snaps cur)
+      && users_kept cur victim (o_chain prev) (o_attr prev) (o_snaps prev)
+      && (if fail || negb (existsb (N.eqb victim) (o_data cur))
+          then listN_eqb (o_chain cur) (o_chain prev)
+          else listN_eqb (o_chain cur) (remove_name (o_chain prev) victim))
   | _ => true
   end.
 
@@ -406,8 +447,9 @@ Fixpoint insertN (x : N) (l : list N) : list N :=
 Definition sortN (l : list N) : list N := fold_right insertN [] l.
 Definition canon (o : op) (ob : obs) : obs :=
   match o with
-  | Candidates _ => mkobs (o_res ob) (sortN (o_data ob)) (o_live ob) (o_chain ob) (o_attr ob) (o_snaps ob)
-                          (o_revs ob) (o_nblk ob)
+  | Candidates _ | Clean _ _ _ =>
+      mkobs (o_res ob) (sortN (o_data ob)) (o_live ob) (o_chain ob) (o_attr ob) (o_snaps ob)
+            (o_revs ob) (o_nblk ob)
   | _ => ob
   end.
 Fixpoint canon_all (ops : list op) (os : list obs) : list obs :=
@@ -466,7 +508,21 @@ Definition model_verdict (fx : bool) (c : case) : nat * nat * nat * nat :=
     4 an unaligned write read-modified a block owned by a file below the head
     8 the full-volume read after the step resolved a block through the FIEMAP probe  16 a snapshot was deleted (fold + remove)
     32 the volume grew  64 a revert succeeded  128 close/open or reload  256 a shrink was refused
-    512 a protected member was refused  1024 the candidate list was non-empty *)
+    512 a protected member was refused  1024 the candidate list was non-empty
+    2048 a read under an injected fault failed although the request spans blocks of at least two files
+    4096 a read under an injected fault succeeded on a chain of at least two files (no block served from the broken file)
+    8192 a cleaner pass merged and removed a snapshot  16384 a cleaner pass whose merge failed kept the snapshot *)
+Fixpoint distinct_targets (d : dd) (cnt b : nat) (first : nat) : bool :=
+  match cnt with
+  | 0 => false
+  | S c => negb (fst (lookup d b) =? first) || distinct_targets d c (S b) first
+  end.
+Definition spans_files (K : nat) (d : dd) (off len : nat) : bool :=
+  match len with
+  | 0 => false
+  | _ => let b0 := off / K in let b1 := (off + len - 1) / K in
+         distinct_targets d (S (b1 - b0)) b0 (fst (lookup d b0))
+  end.
 Definition holes_of (fx : bool) (K : nat) (d : dd) (o : op) : list hole :=
   match o with
   | Write off data => if nblk d * K <? off + length data then [] else snd (write_at fx K d data off)
@@ -502,7 +558,15 @@ Definition step_flags (fx : bool) (K : nat) (d : dd) (o : op) (d1 : dd) (x : out
     match o with
     | Delete _ | PrepRemove _ | Remove _ => res_eqb (ores x) RErr
     | _ => false end;
-    match o with Candidates _ => negb (length (odata x) =? 0) | _ => false end ].
+    match o with Candidates _ => negb (length (odata x) =? 0) | _ => false end;
+    match o with
+    | ReadFault off len _ => negb (nblk d * K <? off + len) && res_eqb (ores x) RErr && spans_files K d off len
+    | _ => false end;
+    match o with
+    | ReadFault off len i => negb (nblk d * K <? off + len) && res_eqb (ores x) ROk && (2 <=? nf d) && negb (i =? 0) && (i <=? nf d)
+    | _ => false end;
+    match o with Clean _ _ _ => nf d1 <? nf d | _ => false end;
+    match o with Clean _ _ _ => res_eqb (ores x) RErr | _ => false end ].
 
 Fixpoint orl (a b : list bool) : list bool :=
   match a, b with
